@@ -104,11 +104,14 @@ def run_rules(spec, props=("C12",)):
         def step_of():
             return cur[0]
 
+        rt = spec.get("rettype")
+        conv = {None: (lambda b: b), "npbool": np.bool_, "int": int}[rt]     # a truth value need not be the singleton True/False
+
         def tt(u, v):
             k = (u, v, step_of()) if keep else (u, v)
             if k not in T:
                 T[k] = orc.pick("trans", [True, False], info=("trans",) + k)
-            return T[k]
+            return conv(T[k])
 
         def tr(u):
             k = (u, step_of())
@@ -116,7 +119,7 @@ def run_rules(spec, props=("C12",)):
                 used = sum(1 for x in Rc.values() if x is False)
                 Rc[k] = orc.pick("rec", [True, False], info=("rec",) + k) if used < refusals else True
             cur[1].add(u)
-            return Rc[k]
+            return conv(Rc[k])
         kw = dict(initial_infecteds=list(I0), tmin=tmin, tmax=tmax, return_full_data=full_)
         if R0:
             kw["initial_recovereds"] = list(R0)
@@ -512,6 +515,11 @@ def specs(tier):
                         out.append(dict(kind="rules", fn="discrete_SIR", n=n, edges=es, I0=list(I0), R0=list(R0), tmin=0,
                                         tmax=4, full=full, test_recovery=True, refusals=2))
                         if not R0:
+                            for rt in ("npbool", "int"):
+                                out.append(dict(kind="rules", fn="discrete_SIR", n=n, edges=es, I0=list(I0), R0=[], tmin=0,
+                                                tmax=4, full=full, test_recovery=True, refusals=2, rettype=rt))
+                                out.append(dict(kind="rules", fn="discrete_SIR", n=n, edges=es, I0=list(I0), R0=[], tmin=0,
+                                                tmax="inf", full=full, rettype=rt))
                             out.append(dict(kind="rules", fn="discrete_SIR", n=n, edges=es, I0=list(I0), R0=[], tmin=0,
                                             tmax=4, full=full, test_recovery=True, refusals=2, xargs=True))
                             out.append(dict(kind="rules", fn="discrete_SIR", n=n, edges=es, I0=list(I0), R0=[], tmin=0,
